@@ -74,6 +74,7 @@ type GhostDecl struct {
 	// InvalidatedBy: struct type full name; any store to a field of an object of that type resets the entry to Default
 	InvalidatedBy string
 	Prop          string
+	ZeroOnAlloc   string // struct type full name: a freshly allocated object of that type has the default ghost value
 }
 
 type FuncDecl struct {
@@ -249,6 +250,9 @@ func (db *SpecDB) LoadFile(file string, pkgPath string) error {
 			if len(fields) >= 5 && fields[3] == "invalidated_by" {
 				g.InvalidatedBy = fields[4]
 			}
+			if len(fields) >= 5 && fields[3] == "zero_on_alloc" {
+				g.ZeroOnAlloc = fields[4]
+			}
 			db.Ghosts[g.Name] = g
 			db.GhostOrder = append(db.GhostOrder, g.Name)
 			cur = nil
@@ -372,7 +376,7 @@ func (db *SpecDB) LoadFile(file string, pkgPath string) error {
 			if cur == nil {
 				return fmt.Errorf("%s:%d: modifies outside a contract", file, ln)
 			}
-			for _, m := range strings.Split(rest, ",") {
+			for _, m := range splitTopLevel(rest) {
 				m = strings.TrimSpace(m)
 				if m == "" {
 					continue
@@ -608,4 +612,33 @@ func (db *SpecDB) expandGhostGroups() {
 		}
 		c.Modifies = out
 	}
+}
+
+// splitTopLevel splits on commas that are not nested in parentheses, brackets or string literals.
+func splitTopLevel(s string) []string {
+	var out []string
+	depth := 0
+	inq := false
+	start := 0
+	for i := 0; i < len(s); i++ {
+		switch s[i] {
+		case '"':
+			inq = !inq
+		case '(', '[':
+			if !inq {
+				depth++
+			}
+		case ')', ']':
+			if !inq {
+				depth--
+			}
+		case ',':
+			if !inq && depth == 0 {
+				out = append(out, s[start:i])
+				start = i + 1
+			}
+		}
+	}
+	out = append(out, s[start:])
+	return out
 }
